@@ -31,7 +31,7 @@ func init() {
 	register(&engine{name: "c12", prop: "C12", run: runC12})
 }
 
-var c12Names = []string{"main", "foo<int>", "<unknown>", "ns::f(int)", "_Z3fooi", "operator<<", "a.b.C", "(anonymous namespace)::x", "std::vector<int>::push_back(int const&)", "[clone .cold]", "java.lang.Object.<init>", "pkg.(*T[...]).M", "_ZN3foo3barEv", "<lambda(int)>", "f()"}
+var c12Names = []string{"main", "foo<int>", "<unknown>", "ns::f(int)", "_Z3fooi", "operator<<", "a.b.C", "(anonymous namespace)::x", "std::vector<int>::push_back(int const&)", "[clone .cold]", "java.lang.Object.<init>", "pkg.(*T[...]).M", "_ZN3foo3barEv", "<lambda(int)>", "f()", "<unknown> (inlined)", "(anonymous namespace) <lambda>", " <unknown>", "<unknown> ", "f (int)", "ns::g<T> [clone]"}
 
 // plug-in call kinds
 const (
